@@ -168,8 +168,9 @@ func opBuild(e *typeEntry, mode, level, dmtext string) string {
 	return "ok:" + gvText(reflect.ValueOf(g).Elem()) + "|" + safeDump(view)
 }
 
-// opBuildGo: Prototype(nil, t): the Go type is inferred from the schema
-func opBuildGo(st schema.Type, dmtext string) string {
+// opBuildGo: Prototype(nil, t): the Go type is inferred from the schema.  level T = type-level
+// builder, R = representation builder, C = dag-cbor bytes decoded through the prototype.
+func opBuildGo(st schema.Type, level, dmtext string) string {
 	d, perr := lib.ParseVal(dmtext)
 	if perr != nil {
 		panic(perr)
@@ -179,12 +180,34 @@ func opBuildGo(st schema.Type, dmtext string) string {
 	if err != nil {
 		return errClass(err)
 	}
-	n, err := assembleInto(proto.NewBuilder(), d)
+	var n datamodel.Node
+	switch level {
+	case "C":
+		b, eerr := encodeDm("cbor", d)
+		if eerr != nil {
+			return "unencodable"
+		}
+		err = lib.Safely(func() error {
+			var derr error
+			n, derr = ipld.DecodeUsingPrototype(b, dagcbor.Decode, proto)
+			return derr
+		})
+	case "R":
+		n, err = assembleInto(proto.Representation().NewBuilder(), d)
+	default:
+		n, err = assembleInto(proto.NewBuilder(), d)
+	}
 	if err != nil {
 		return errClass(err)
 	}
 	g := reflect.ValueOf(bindnode.Unwrap(n)).Elem()
-	return "ok:" + shapeText(g.Type()) + "|" + gvText(g) + "|" + safeDump(n)
+	view := n
+	if level != "T" {
+		if err := lib.Safely(func() error { view = n.(schema.TypedNode).Representation(); return nil }); err != nil {
+			return "ok:" + shapeText(g.Type()) + "|" + gvText(g) + "|panic:other"
+		}
+	}
+	return "ok:" + shapeText(g.Type()) + "|" + gvText(g) + "|" + safeDump(view)
 }
 
 // opMarshal: ipld.Marshal, observed as the data model content of the produced bytes
